@@ -56,7 +56,7 @@ def run(tier):
     M, F = common.Model(), common.Ref(); rng = R.rng
     envs = MI.env_grid(tier, rng); eenc = [MI.enc_env(e) for e in envs]; ienv = [MI.impl_env(e) for e in envs]
     mreq, midx = [], []
-    for it in range(400 if tier == "quick" else 3000):     # thorough: 3000 markers of up to 6 leaves take about 40 minutes (the extracted simplifier is the slow side)
+    for it in range(400 if tier == "quick" else 1500):     # thorough: markers of up to 6 leaves; the extracted simplifier is the slow side (3000 took more than an hour)
         s, k, feats = MI.gen_marker(rng, depth=3, leaves=rng.randint(1, 4 if tier == "quick" else 6))
         if it % 6 == 4:      # clauses on the interpreter version only: bounds that leave gaps, touch and overlap
             s, k, feats = MI.gen_marker(rng, depth=2, leaves=rng.randint(2, 4), focus=["pv", "pfv"])
